@@ -121,7 +121,15 @@ func GenC05(seed uint64, tier string) *Plan {
 	for i := range w {
 		w[i] = 1 + g.r.Intn(5)
 	}
+	reconfAt := -1
+	if cfg.Store == "memfs" && g.r.Chance(0.1) {
+		reconfAt = 1 + g.r.Intn(n)
+	}
 	for i := 0; i < n; i++ {
+		if i == reconfAt {
+			// an operator points the running handler at another backend
+			g.plan.Steps = append(g.plan.Steps, Step{Kind: "reconfigure", DelayNS: 1000})
+		}
 		fn := apiFns[g.r.Weighted(w)]
 		a := &APICall{Fn: fn}
 		st := &Step{Client: g.r.Intn(cfg.Clients), DelayNS: g.delay(), API: a}
